@@ -3707,6 +3707,13 @@ func (r *Resolver) processAuthoritySection(ctx context.Context, rs *resolveState
 				}
 			}
 			if hasSOA {
+				// As on the SOA path below: only the records of a denial go
+				// into authority(). The validator leaves authority-section NS
+				// records out (referral remnants) and the zone filter keeps
+				// anything owned inside the zone, so an unsigned in-zone NS
+				// RRset appended to a genuine signed denial travelled to the
+				// client inside an NXDOMAIN with AD=1.
+				resp.Ns = r.filterAuthorityRecords(resp.Ns)
 				result, err := r.authority(ctx, minReq, resp, rs.parentDS, rs.servers.Zone)
 				if err != nil {
 					return nil, err
